@@ -91,6 +91,22 @@ Theorem C18_pool_stale_refuted :
   exists prev prev' size stream, recv_buffer_stale prev size stream <> recv_buffer_stale prev' size stream.
 Proof. exact recv_buffer_stale_refuted. Qed.
 
+(** The same for appendBuffer as go2coq READS it (gen_recv_view: which view of the pooled buffer decides growth,
+    is handed to m.decode, is filled by ReadFrom; Pool.v recv_buffer_g interprets any such triple, with the
+    bytes between length and capacity of the pooled buffer modelled too): for the views the source uses, what
+    decode sees is independent of all previous content ... *)
+Theorem C18_pool_generated_independent : forall cmp dec rd, gen_recv_view = Some (cmp, dec, rd) ->
+  forall prev hid prev' hid' size stream,
+  recv_buffer_g cmp dec rd prev hid size stream = recv_buffer_g cmp dec rd prev' hid' size stream.
+Proof. exact recv_generated_independent. Qed.
+Print Assumptions C18_pool_generated_independent.
+
+(** ... and every other view handed to decode leaks (so the obligation recv_slices_spec is what carries it) *)
+Theorem C18_pool_generated_stale_refuted : forall cmp dec, dec <> SFirst ->
+  exists prev hid prev' hid' size stream,
+    recv_buffer_g cmp dec SFirst prev hid size stream <> recv_buffer_g cmp dec SFirst prev' hid' size stream.
+Proof. exact recv_buffer_g_stale_refuted. Qed.
+
 (** the payload slice a recycled payloader still holds: kept if of the right length, else replaced,
     then filled — equal to the received bytes either way (model of the branch in recv; by list reasoning) *)
 Theorem C18_payload_slice : forall old data, recv_payload old data = data.
